@@ -33,7 +33,9 @@ theorem annVisit_total_partial (sup : String → Bool) (e : AExpr)
   annVisit_ok sup e hD
 
 /-- Conversely, whenever the visitor raises, the kind it names has no `visit_` method and occurs in
-the expression: there is no other way for the modelled dispatch to fail. Full strength. -/
+the expression: there is no other way for the modelled dispatch to fail. Full strength. (Since fix
+0e3888a the constructor calls inside `visit_Call` report instead of raising, so this is also the only way
+the *real* visitor raises; the `annot` correspondence stream treats any other exception as a disagreement.) -/
 theorem annVisit_raise_unsupported (sup : String → Bool) (e : AExpr) (k : String)
     (h : annVisit sup e = .raise k) : sup k = false ∧ k ∈ e.kinds :=
   annVisit_raise sup e k h
